@@ -29,6 +29,7 @@ META["claim"] += " " + 'Also: every sequencing history again with per-fragment d
 META["claim"] += " " + 'Round 4: sequencing after a message rejected for its payload (continuation forbidden, new data frame legal); long close reasons with a multi-byte sequence split around whole 2^n-byte ASCII blocks; ambient conditions drawn per connection.'
 META["claim"] += " " + "Round 5: close frames also with per-fragment delivery on; sequencing after the client's send_close() in the middle of a server message."
 META["claim"] += " " + 'Rounds 6-7: extra response headers (extensions); what follows a rejected frame; ambient warnings-as-errors / thread hops / 1-0 spellings.'
+META["claim"] += " " + 'Round 8: constructor options passed by position in the published order.'
 
 import logging as _logging
 
